@@ -317,6 +317,28 @@ def check_static_file(P, R):
     cl = rd.closure_nodes(hdr, cn) if hdr is not None else []
     ok = any(isinstance(x, ast.Constant) and x.value == 'HTTP_RANGE' for x in cl)
     R.ob('C17.a', f, call, ok, text='header argument = HTTP_RANGE', detail='' if ok else 'the parser is not given the Range header', nontrivial=False)
+    # the header set of an answer is built for that answer: the dictionary the per-request headers are written into is created by this call
+    hd_names = set()
+    for r_ in [n for n in walk_shallow(f.node) if isinstance(n, ast.Return) and isinstance(n.value, ast.Call)]:
+        for k_ in r_.value.keywords:
+            if k_.arg is None and isinstance(k_.value, ast.Name):
+                hd_names.add(k_.value.id)
+    for hn_ in sorted(hd_names):
+        for d in [d for n in g.nodes for d in rd.gen.get(n, []) if d.name == hn_ and d.kind == 'assign' and d.value is not None]:
+            v = d.value
+            fresh = isinstance(v, ast.Dict) or (isinstance(v, ast.Call) and (dotted(v.func) in ('dict', 'OrderedDict', 'collections.OrderedDict') or call_attr(v) == 'copy'))
+            memo = False
+            if isinstance(v, ast.Call) and isinstance(v.func, ast.Name):
+                r2 = P.resolve_name(f.module, v.func.id)
+                if r2 and r2[0] == 'func':
+                    memo = any((dotted(x.func) if isinstance(x, ast.Call) else dotted(x) or '').split('.')[-1] in ('lru_cache', 'cache') for x in r2[1].node.decorator_list)
+            if not fresh and not memo:
+                R.undecided('C17.a', f, d.stmt, 'static_file headers', f'`{short(v)}` is neither a new dictionary nor the result of a memoised helper')
+                continue
+            R.ob('C17.a', f, d.stmt, fresh, text=f'`{short(d.stmt)}`: a dictionary of this call', detail='' if fresh else
+                 f'`{hn_}` is the object a memoised helper (`{short(v)}`) returns for every call with these arguments, and static_file goes on writing Content-Length, Content-Range, '
+                 f'Accept-Ranges into it: after one 206 every later full answer for the same file carries the stale Content-Range',
+                 why='Content-Range, Content-Length and the delivered bytes describe the same slice; without a Range header the whole file is delivered', key_extra='headers-fresh')
     # every answer that delivers the file (not 304 / 4xx) is given after the Range header has been looked at
     rtests = [n for n in g.nodes if n.kind == 'test' and n.ast is not None and g.dominates(n, cn) and any(
         isinstance(x, ast.Constant) and x.value == 'HTTP_RANGE' for x in rd.closure_nodes(n.ast, n))]
@@ -571,6 +593,9 @@ def check(P, R):
     R.rule('C17.c', 'bounded streaming with received-length accounting', floor=7)
     R.rule('C17.d', 'full response carries the true length', floor=2)
     R.rule('C17.e', '304 / HEAD carry no body', floor=3)
+    # the true length reaches the response also when it is 0 (the header dictionary stores every value it is given)
+    from . import c14 as _c14
+    _c14.check_setters_always_store(P, R, 'C17.d', 'the whole file is delivered with its true length (Content-Length: 0 for an empty file, GET as HEAD)')
     R.rule('C17.f', 'conditional date comparison type-safe and whole-second', floor=3)
     check_parser(P, R)
     check_stream(P, R)
